@@ -5,4 +5,6 @@ package props
 // drainPool: the plain build uses the real sync.Pool, which cannot be drained.
 func drainPool() {}
 
+func heldLocks() int64 { return 0 }
+
 const poolIsShim = false
